@@ -23,11 +23,11 @@ Definition read_at (buf : list N) (i n : nat) : option (list N) :=
 Definition write_at (buf : list N) (i : nat) (bs : list N) : option (list N) :=
   if i + length bs <=? length buf then Some (firstn i buf ++ bs ++ skipn (i + length bs) buf) else None.
 
-(* do { l += b = *s++; } while (b == 0xff && s != e);  on u32 l *)
+(* do { l += b = *s++; if (l < b) l = u32(-1); } while (b == 0xff && s != e);  on u32 l: the sum saturates instead of wrapping *)
 Fixpoint read_ext (s : list N) (l : N) : N * list N :=
   match s with
   | [] => (l, [])
-  | b :: r => let l' := ((l + b) mod U32)%N in
+  | b :: r => let l' := (if l + b <? U32 then l + b else U32 - 1)%N in
               if (b =? 255)%N then match r with [] => (l', r) | _ => read_ext r l' end else (l', r)
   end.
 Definition read_literal (s : list N) (l : N) : N * list N :=
